@@ -104,7 +104,8 @@ func GetPosition(ast MalType) *Position {
 		// throw or assert
 		return nil
 	default:
-		panic(fmt.Errorf("GetPosition(%T)", value))
+		// any other value (numbers, strings, functions...) carries no position
+		return nil
 	}
 }
 
